@@ -169,3 +169,17 @@ Definition c07_knn (labels : list Z) (cls : list (list nat * list (list nat) * l
   forallb (tables_ok labels) cls &&
   all2 eqt (map (knn_to_caller (known_idx labels))
               (flat_map (fun c => match c with (g, gn, im) => knn_class g gn im end) cls)) impl.
+
+(* ---------------- C06 ---------------------------------------------------------------------- *)
+From ML Require Import Validate.
+
+(* outcome of the implementation: 0 = returned (with ndim and shape), 1 = ValueError,
+   2 = PreprocessorError, 3 = any other exception *)
+Definition c06_case (d : desc) (y : ydesc) (pre : pre_t) (ty : input_type) (ts : option nat)
+    (o : sk_opts) (impl_outcome : nat) (impl_ndim : nat) (impl_shape : list nat) : bool :=
+  match check_input d y pre ty ts o with
+  | Ok d' => Nat.eqb impl_outcome 0 && Nat.eqb impl_ndim (ndim d') &&
+             all2 Nat.eqb impl_shape (shape d')
+  | Raise ValueError => Nat.eqb impl_outcome 1
+  | Raise PreprocessorError => Nat.eqb impl_outcome 2
+  end.
